@@ -28,6 +28,8 @@ RULES = {
     "C07-e": "merge, not overwrite: update_recursively replaces an existing dictionary item only by recursion",
     "C07-f": "DEPTH: the level of intersection/difference is the same for every argument and key of one call (never rebound "
              "in a loop) and every recursive call passes exactly level - 1",
+    "C07-g": "NO HIDDEN STATE: the shared helper modules keep no module-level mutable container that a function reads or fills "
+             "(a memo hands the same dictionary to several callers, whose in-place updates then meet)",
 }
 FN = "lena.context.functions"
 ALGEBRA = ("intersection", "difference", "update_recursively", "update_nested")
@@ -341,7 +343,57 @@ def check_depth(ctx):
     ctx.instances_floor("C07-f", n, 2, "recursive calls of intersection/difference")
 
 
+HELPER_MODULES = ("lena.context.functions", "lena.flow.functions", "lena.core.functions", "lena.core.check_sequence_type",
+                  "lena.math.meshes", "lena.structures.hist_functions")
+MUTABLE_CTORS = ("builtins.dict", "builtins.list", "builtins.set", "collections.OrderedDict", "collections.defaultdict",
+                 "collections.deque", "weakref.WeakValueDictionary", "weakref.WeakKeyDictionary")
+
+
+def check_no_hidden_state(ctx):
+    """The dictionary algebra and the value helpers are documented as functions of their arguments.  update_recursively
+    stores the dictionary it gets from str_to_dict into the caller's context *by reference*: that is harmless exactly as
+    long as every call builds a new one.  A module-level cache (or functools cache) breaks it for every caller at once."""
+    res = ctx.res
+    n_mod = 0
+    for modname in HELPER_MODULES:
+        mod = ctx.tree.module(modname)
+        n_mod += 1
+        containers = {}
+        for st in mod.tree.body:
+            if isinstance(st, ast.Assign) and len(st.targets) == 1 and isinstance(st.targets[0], ast.Name):
+                v = st.value
+                if isinstance(v, (ast.Dict, ast.List, ast.Set, ast.ListComp, ast.DictComp, ast.SetComp)) or \
+                        (isinstance(v, ast.Call) and res.call_canon(v) in MUTABLE_CTORS):
+                    if st.targets[0].id != "__all__":
+                        containers[st.targets[0].id] = st
+        used = False
+        for fnmod, fn in ctx.tree.functions():
+            if fnmod is not mod or isinstance(fn, ast.Lambda):
+                continue
+            own = set(A.func_params(fn)) | {n.id for n in A.walk_local(fn, include_self=False)
+                                             if isinstance(n, ast.Name) and isinstance(n.ctx, ast.Store)}
+            for n in A.walk_local(fn, include_self=False):
+                if isinstance(n, ast.Name) and n.id in containers and n.id not in own:
+                    used = True
+                    ctx.violation("C07-g", n, "%s uses the module-level container `%s` of %s: results (or parts of them) are shared "
+                                  "between calls -- update_recursively stores what str_to_dict returns into the caller's dictionary by "
+                                  "reference, so an in-place update of one context shows up in every other context built from the same "
+                                  "key" % (A.qualname(fn), n.id, modname), construct="module-state:%s.%s" % (modname.rsplit(".", 1)[-1], A.qualname(fn)))
+                    break
+            for d in getattr(fn, "decorator_list", []):
+                c = res.canon(d.func if isinstance(d, ast.Call) else d)
+                if c and (c.endswith("lru_cache") or c.endswith("functools.cache")):
+                    used = True
+                    ctx.violation("C07-g", d, "%s is memoised with %s: every caller receives the same result object" % (A.qualname(fn), c),
+                                  construct="memoised:%s" % A.qualname(fn))
+        if not used:
+            ctx.ok("C07-g", (modname, "<module>"), "%s: no function reads or fills a module-level mutable container (%d such containers)" % (
+                modname, len(containers)))
+    ctx.instances_floor("C07-g", n_mod, 6, "shared helper modules")
+
+
 def check(ctx):
+    check_no_hidden_state(ctx)
     check_truthy(ctx)
     check_depth(ctx)
     check_fresh(ctx)
@@ -351,6 +403,7 @@ def check(ctx):
 
 
 VARIANTS = [
+    M("str-to-dict-memo", "lena/context/functions.py", "def str_to_dict(s, value=_sentinel):", "_str_to_dict_cache = {}\n\n\ndef _memo(s, d):\n    _str_to_dict_cache[s] = d\n    return d\n\n\ndef str_to_dict(s, value=_sentinel):", ["C07-g"]),
     M("intersection-level-per-argument", "lena/context/functions.py", "        to_delete = []\n        for key in res:\n            if key in d:\n                if d[key] != res[key]:\n                    if level == 1:\n                        to_delete.append(key)\n                    elif isinstance(res[key], dict) and isinstance(d[key], dict):\n                        res[key] = intersection(res[key], d[key], level=level-1)",
       "        level -= 1\n        to_delete = []\n        for key in res:\n            if key in d:\n                if d[key] != res[key]:\n                    if level == 0:\n                        to_delete.append(key)\n                    elif isinstance(res[key], dict) and isinstance(d[key], dict):\n                        res[key] = intersection(res[key], d[key], level=level)", ["C07-f"]),
     M("difference-level-kept", "lena/context/functions.py", "                res = difference(d1[key], d2[key], level-1)", "                res = difference(d1[key], d2[key], level)", ["C07-f"]),
